@@ -379,6 +379,10 @@ impl<'a> PGen<'a> {
         let rhs = if !vars.lvars.is_empty() && u.chance(1, 5) {
             let (n, _) = &vars.lvars[u.below(vars.lvars.len())];
             Expr::Query { some: false, q: Query { head: Head::Var(n.clone()), parts: vec![] } }
+        } else if self.wide && u.chance(1, 6) {
+            // a query into the data on the right-hand side
+            let rq = self.gen_query(u, ctx, &Vars::default(), self.sz.nest, true);
+            Expr::Query { some: false, q: rq }
         } else {
             let selv: Vec<V> = sel
                 .map(|v| match v {
